@@ -55,6 +55,9 @@ type round struct {
 	WrapEED bool `json:"callback_error_wraps_a_foreign_eed_error"`
 	// BadReg: before this response hooks are registered with a nil function among them (refused)
 	BadReg bool `json:"refused_registration_first"`
+	// Fin: the failing callback returns (true, err) - "finished, with this error" (the pattern of
+	// the function's documentation) - instead of (false, err)
+	Fin bool `json:"callback_returns_true_with_its_error,omitempty"`
 }
 
 type c11Case struct {
@@ -206,12 +209,12 @@ func runCase(c c11Case) (f *vh.Failure) {
 					if calls-1 == r.FailAt {
 						if r.WrapEOF {
 							// still "an error that is not an unwrapped io.EOF"
-							return false, fmt.Errorf("%w: %w", errCB, io.EOF)
+							return r.Fin, fmt.Errorf("%w: %w", errCB, io.EOF)
 						}
 						if r.WrapEED {
-							return false, fmt.Errorf("%w, caused by: %w", errCB, foreignEED())
+							return r.Fin, fmt.Errorf("%w, caused by: %w", errCB, foreignEED())
 						}
-						return false, errCB
+						return r.Fin, errCB
 					}
 					d, ok := p.(*tds.DonePackage)
 					return ok && d.Status == tds.TDS_DONE_FINAL, nil
@@ -445,6 +448,9 @@ func runCase(c c11Case) (f *vh.Failure) {
 					vh.Label("eed-error-with-messages")
 				}
 				vh.Label("callback-failed")
+				if r.Fin {
+					vh.Label("callback-failed-returning-true")
+				}
 			} else if cbErr != nil {
 				return vh.Failf("C11/delivery", "%s: NextPackageUntil returned %v, callback saw %d packages", where, cbErr, cbSeen)
 			}
@@ -511,6 +517,7 @@ func TestHooks(t *testing.T) {
 			r.Cuts = respgen.Cuts(rt, len(stream), true)
 			if rapid.IntRange(0, 2).Draw(rt, "until") == 0 {
 				r.FailAt = rapid.IntRange(0, 6).Draw(rt, "failat")
+				r.Fin = rapid.IntRange(0, 2).Draw(rt, "fin") == 0
 				r.WrapEOF = rapid.IntRange(0, 2).Draw(rt, "wrapeof") == 0
 				r.Poll = rapid.IntRange(0, 2).Draw(rt, "poll") == 0
 				r.WrapEED = !r.WrapEOF && rapid.IntRange(0, 2).Draw(rt, "wrapeed") == 0
